@@ -1176,7 +1176,7 @@ func init() {
 			"distinct_nontrivial counts distinct (endpoint, body, query) requests judged",
 		Run: func(c *Ctx) {
 			nowDone := make(chan struct{})
-			go c18NowHistory(c, "VERIF_SERVER_BIN", nowDone)
+			go c18NowHistory(c.forkFor(1801), "VERIF_SERVER_BIN", nowDone)
 			defer func() { <-nowDone }()
 			runC18On(c, "VERIF_SERVER_BIN", c.N(6000, 100000), []int{1, 4, 32, 8})
 			if c.Thorough {
